@@ -23,6 +23,13 @@ class TapeRecorder:
     def type_number(self) -> int:
         return int(''.join('1' if i in self.keys() else '0' for i in reversed(self.algebra.canon2bin.values())), 2)
 
+    @cached_property
+    def type_name(self) -> str:
+        keys = tuple(self.keys())
+        if keys == tuple(k for k in self.algebra.canon2bin.values() if k in keys):
+            return f'{self.type_number}'
+        return f'{self.type_number}_o' + '_'.join(str(k) for k in keys)
+
     def __getattr__(self, basis_blade):
         if not re.match(r'^e[0-9a-fA-F]*$', basis_blade):
             raise AttributeError(f'{self.__class__.__name__} object has no attribute or basis blade {basis_blade}')
